@@ -2,8 +2,17 @@
 
 use std::fmt::Debug;
 use std::io::ErrorKind;
+#[cfg(not(mainline_verif))]
 use std::net::{SocketAddr, SocketAddrV4, UdpSocket};
+#[cfg(mainline_verif)]
+use {
+    crate::verif::UdpSocket,
+    std::net::{SocketAddr, SocketAddrV4},
+};
+#[cfg(not(mainline_verif))]
 use std::time::{Duration, Instant};
+#[cfg(mainline_verif)]
+use {crate::verif::Instant, std::time::Duration};
 use tracing::{debug, trace, warn};
 
 use crate::common::{ErrorSpecific, Message, MessageType, RequestSpecific, ResponseSpecific};
@@ -499,6 +508,40 @@ impl Debug for InflightRequests {
             .field("deviation_rtt", &self.deviation_rtt)
             .field("request_timeout", &timeout)
             .finish()
+    }
+}
+
+#[cfg(mainline_verif)]
+impl KrpcSocket {
+    pub fn verif_snapshot(&self) -> crate::verif::SocketSnapshot {
+        let timeout = self.inflight_requests.request_timeout();
+
+        crate::verif::SocketSnapshot {
+            server_mode: self.server_mode,
+            local_addr: self.local_addr,
+            next_tid: self.inflight_requests.next_tid,
+            inflight: self
+                .inflight_requests
+                .requests
+                .iter()
+                .map(|request| crate::verif::InflightSnapshot {
+                    tid: request.tid,
+                    to: request.to,
+                    sent_at: request.sent_at.as_nanos(),
+                })
+                .collect(),
+            inflight_unexpired: self
+                .inflight_requests
+                .requests
+                .iter()
+                .filter(|request| request.sent_at.elapsed() < timeout)
+                .count(),
+            inflight_capacity: self.inflight_requests.requests.capacity(),
+            estimated_rtt: self.inflight_requests.estimated_rtt,
+            deviation_rtt: self.inflight_requests.deviation_rtt,
+            request_timeout: timeout,
+            poll_interval: self.poll_interval,
+        }
     }
 }
 
